@@ -119,7 +119,17 @@ def main():
   nontrivial = set()
   samples = []
   for k in range(n_models):
-    mb, info = gg.gen_model(rng, n_subgraphs=rng.choice([2, 2, 3]), max_ops=rng.choice([3, 5, 8]))
+    one_sided = k % 8 == 3
+    if one_sided:
+      # constants tied across subgraphs, op chains (runtime tensors that are produced AND
+      # read), and a rule that covers ONE subgraph only: refused (C15) or, if accepted,
+      # every subgraph must still come out as if it stood alone
+      mb, info = gg.gen_model(rng, n_subgraphs=rng.choice([2, 2, 3]), max_ops=rng.choice([3, 4, 5]),
+                              op_weights=['FULLY_CONNECTED'] * 5 + ['CONV_2D'] * 2 + ['EMBEDDING_LOOKUP', 'ADD', 'RELU', 'TANH'],
+                              force_share=True)
+      dist['tied_constants_one_sided_rule'] += 1
+    else:
+      mb, info = gg.gen_model(rng, n_subgraphs=rng.choice([2, 2, 3]), max_ops=rng.choice([3, 5, 8]))
     dup = None
     if k % 8 == 6:
       dup = dup_names(mb, rng)
@@ -129,7 +139,15 @@ def main():
     m_in = og.read(mb)
     for trial in range(2):
       ship_name, rules = None, None
-      if trial == 0 and rng.random() < 0.5:
+      if one_sided:
+        cname = rng.choice(['wo8', 'wo8s', 'wo4', 'drq8', 'drq8t', 'fp16', 'a8w8'])
+        probe = quantizer.Quantizer(bytearray(mb))
+        rules = gr.apply_rules(probe, [(f'sig{rng.randrange(info["n_subgraphs"])}', rng.choice(['*', 'FULLY_CONNECTED']),
+                                        gr.named_configs()[cname][0], cname)])
+        if not rules:
+          continue
+        desc = rules
+      elif trial == 0 and rng.random() < 0.5:
         ship_name = rng.choice(gr.DEFAULT_SHIPPED)
         desc = ship_name
       else:
